@@ -121,6 +121,8 @@ def decide(prop: str, results: list[OR], tier: str, seed: int, t0: float, meta: 
     guards_ok = True
     for r in results:
         if r.must_fail:
+            if r.status == UNKNOWN:
+                continue   # guard inconclusive (solver incompleteness): reported in the evidence, not a fault
             if r.status != REFUTED:
                 guards_ok = False
                 faults.append((r, f"vacuity guard {r.id}: expected refuted, got {r.status}"))
